@@ -15,6 +15,7 @@ import (
 	"encoding/json"
 	"errors"
 	"fmt"
+	"io"
 	"io/ioutil"
 	"math"
 	"net/http"
@@ -375,6 +376,28 @@ func vC19Version(r *vRng) string {
 	return num() + "." + num() + "." + num() + "-" + num()
 }
 
+// envelopes from 64 KiB to about 1 MiB: one long string, or an array of many small values
+func vC19GenBig(r *vRng) vSx {
+	n := r.pickInt(65536, 70000, 200000, 400000, 1000000)
+	var v vSx
+	if r.chance(1, 2) {
+		b := make([]byte, n)
+		for i := range b {
+			alphabet := "ab %\\\"<x"
+			b[i] = alphabet[r.intn(len(alphabet))]
+		}
+		v = vL(vZ(3), vB(b))
+	} else {
+		items := []vSx{vZ(4)}
+		for tot := 0; tot < n; tot += 12 {
+			items = append(items, vL(vZ(2), vU(math.Float64bits(float64(r.intn(1000000))+0.5))))
+		}
+		v = vLs(items)
+	}
+	cb := r.pickStr("", "", "cb")
+	return vL(vL(vZ(0), v, vS(""), vL(vZ(0))), vS(cb), vS("Oryx"), vZ(0), vI(r.intn(2)), vB(nil), vL(vZ(0)), vC19GenFx(r, true))
+}
+
 func vC19Gen(r *vRng) vSx {
 	cb := ""
 	if r.chance(1, 3) {
@@ -383,7 +406,7 @@ func vC19Gen(r *vRng) vSx {
 	srv := r.pickStr("Oryx", "Oryx", "SRS/4.0.1", "", "a b", "\xc3\xa9")
 	var p vSx
 	if r.chance(1, 9) {
-		return vL(vL(vZ(5), vS(vC19Version(r))), vS(cb), vS(srv), vZ(0), vI(r.intn(3)))
+		return vL(vL(vZ(5), vS(vC19Version(r))), vS(cb), vS(srv), vZ(0), vI(r.intn(3)), vB(nil), vL(vZ(0)), vC19GenFx(r, false))
 	}
 	switch r.intn(10) {
 	case 9:
@@ -424,7 +447,7 @@ func vC19Gen(r *vRng) vSx {
 		st := r.pickInt(-1, -1, -1, 500, 404, 400, 503, 418, 200, 200, 201, 299, 300, 399, 599, 600, 999)
 		p = vL(vZ(4), vI(st), vS(vC19Msg(r)), vL(vZ(0)))
 	}
-	return vL(p, vS(cb), vS(srv), vZ(0), vI(r.intn(3)))
+	return vL(p, vS(cb), vS(srv), vZ(0), vI(r.intn(3)), vB(nil), vL(vZ(0)), vC19GenFx(r, false))
 }
 
 // the version object as the documentation of WriteVersion describes it:
@@ -454,6 +477,133 @@ func vC19Serve(h http.Handler, q string) (rec *httptest.ResponseRecorder, panick
 type vC19Env struct {
 	srv *httptest.Server
 	h   http.Handler
+	rt  *vC19RT
+}
+
+// the transport under the library's client (http.Get uses http.DefaultClient): the real loopback
+// transport, with the response body re-delivered in the segmentation the case prescribes
+type vC19RT struct {
+	base   http.RoundTripper
+	active bool
+	cuts   []int
+	dt     bool // the last bytes come together with io.EOF
+}
+
+func (t *vC19RT) RoundTrip(req *http.Request) (*http.Response, error) {
+	resp, err := t.base.RoundTrip(req)
+	if err != nil || !t.active {
+		return resp, err
+	}
+	data, rerr := ioutil.ReadAll(resp.Body)
+	resp.Body.Close()
+	if rerr != nil {
+		return nil, rerr
+	}
+	resp.Body = &vC19Body{data: data, cuts: t.cuts, dt: t.dt}
+	return resp, nil
+}
+
+type vC19Body struct {
+	data []byte
+	cuts []int
+	dt   bool
+}
+
+func (b *vC19Body) Close() error { return nil }
+func (b *vC19Body) Read(p []byte) (int, error) {
+	if len(b.data) == 0 {
+		return 0, io.EOF
+	}
+	k := len(b.data)
+	if len(b.cuts) > 0 {
+		k = b.cuts[0]
+		if k > len(b.data) {
+			k = len(b.data)
+			b.cuts = nil
+		}
+	}
+	if k == 0 {
+		b.cuts = b.cuts[1:]
+		return 0, nil
+	}
+	if len(p) == 0 {
+		return 0, nil
+	}
+	if k > len(p) {
+		// the caller's buffer is smaller than the segment: the rest of the segment comes next
+		n := copy(p, b.data[:len(p)])
+		b.data = b.data[n:]
+		if len(b.cuts) > 0 {
+			b.cuts[0] -= n
+		}
+		return n, nil
+	}
+	n := copy(p, b.data[:k])
+	b.data = b.data[n:]
+	if len(b.cuts) > 0 {
+		b.cuts = b.cuts[1:]
+	}
+	if len(b.data) == 0 && b.dt {
+		return n, io.EOF
+	}
+	return n, nil
+}
+
+// a middleware that buffers the handler's output and announces its Content-Length
+func vC19WithLength(h http.Handler) http.Handler {
+	return http.HandlerFunc(func(w http.ResponseWriter, r *http.Request) {
+		rec := httptest.NewRecorder()
+		h.ServeHTTP(rec, r)
+		for k, v := range rec.Header() {
+			w.Header()[k] = v
+		}
+		w.Header().Set("Content-Length", strconv.Itoa(rec.Body.Len()))
+		w.WriteHeader(rec.Code)
+		w.Write(rec.Body.Bytes())
+	})
+}
+
+// how the response body reaches the client: fx = (mw dt len ...)
+func vC19GenFx(r *vRng, big bool) vSx {
+	out := []vSx{vI(r.pickInt(0, 1, 1)), vI(r.pickInt(0, 0, 1))}
+	if big {
+		switch r.intn(4) {
+		case 0: // the real transport, untouched
+		case 1:
+			for i := 0; i < 3000; i++ {
+				out = append(out, vI(r.pickInt(16, 1, 4096, 100, 32768)))
+			}
+		case 2:
+			out = append(out, vI(1), vI(15), vI(4096))
+		default:
+			for i := 0; i < 200; i++ {
+				out = append(out, vI(r.rng(1, 20000)))
+			}
+		}
+		return vLs(out)
+	}
+	switch r.intn(6) {
+	case 0: // the real transport, untouched
+	case 1:
+		for i := 0; i < 4000; i++ {
+			out = append(out, vI(1))
+		}
+	case 2:
+		for i := 0; i < 400; i++ {
+			out = append(out, vI(16))
+		}
+	case 3:
+		for i := 0; i < 300; i++ {
+			out = append(out, vI(r.pickInt(0, 0, 1, 2, 3, 7, 30)))
+		}
+	case 4:
+		out = append(out, vI(r.rng(0, 40)))
+	default:
+		for i := 0; i < 100; i++ {
+			out = append(out, vI(r.rng(1, 64)))
+		}
+	}
+	return vLs(out)
 }
 
 func vC19Run(k *vKit, env *vC19Env, c vSx) {
@@ -583,7 +733,11 @@ func vC19Run(k *vKit, env *vC19Env, c vSx) {
 	if cb != "" && expect != nil {
 		jtv = vC19View([]byte(cb + "(" + string(mb) + ")"))
 	}
-	c = vL(p, c.l[1], c.l[2], vI(pid), c.l[4], vB(mb), jtv)
+	fx := vL(vI(0), vI(0))
+	if len(c.l) >= 8 && c.l[7].isList() && len(c.l[7].l) >= 2 {
+		fx = c.l[7]
+	}
+	c = vL(p, c.l[1], c.l[2], vI(pid), c.l[4], vB(mb), jtv, fx)
 
 	// the response itself
 	q := ""
@@ -635,17 +789,25 @@ func vC19Run(k *vKit, env *vC19Env, c vSx) {
 	// the client half against a loopback server
 	clientObs := vL()
 	var cCode int
+	var cBody []byte
 	var cErr error
 	{
 		env.h = h
-		if msg := vPanicText(func() { cCode, _, cErr = ApiRequest(env.srv.URL + "/api" + q) }); msg != "" {
+		if fx.l[0].int() != 0 {
+			env.h = vC19WithLength(h)
+		}
+		env.rt.active, env.rt.cuts, env.rt.dt = len(fx.l) > 2, nil, fx.l[1].int() != 0
+		for _, x := range fx.l[2:] {
+			env.rt.cuts = append(env.rt.cuts, x.int())
+		}
+		if msg := vPanicText(func() { cCode, cBody, cErr = ApiRequest(env.srv.URL + "/api" + q) }); msg != "" {
 			idx := k.record(c, vPanicObs(), nontrivial)
 			k.fail(idx, c.size(), "no-panic", "", "ApiRequest panicked: "+msg)
 			return
 		}
 		clientObs = vL(vBool(cErr != nil), vI(cCode))
 	}
-	obs := vL(vI(rec.Code), vI(ctCode), vS(rec.Header().Get("Server")), bodyObs, clientObs, vB(body))
+	obs := vL(vI(rec.Code), vI(ctCode), vS(rec.Header().Get("Server")), bodyObs, clientObs, vB(body), vB(cBody))
 	idx := k.record(c, obs, nontrivial)
 	fail := func(oracle, key, detail string) { k.fail(idx, c.size(), oracle, key, detail) }
 	show := func(b []byte) string {
@@ -659,6 +821,22 @@ func vC19Run(k *vKit, env *vC19Env, c vSx) {
 	k.count("status", fmt.Sprint(rec.Code))
 
 	// ---- direct oracles ----
+	k.count("middleware", fmt.Sprint(fx.l[0].int() != 0))
+	k.count("body-segments", vSizeBucket(len(fx.l)-2))
+	k.count("body-size", vSizeBucket(len(body)))
+	// however the transport splits the body, the client holds all of it
+	if !bytes.Equal(cBody, body) {
+		fail("client-body-complete", "", fmt.Sprintf("ApiRequest returned a body of %d bytes %s, the response body has %d bytes %s (err %v)", len(cBody), show(cBody), len(body), show(body), cErr))
+	}
+	if kind == 0 && !unm && cb == "" {
+		var env0 struct {
+			Code *float64    `json:"code"`
+			Data interface{} `json:"data"`
+		}
+		if err := json.Unmarshal(cBody, &env0); err != nil || env0.Code == nil || *env0.Code != 0 || !reflect.DeepEqual(env0.Data, vC19Coerce(val)) {
+			fail("client-data", "", fmt.Sprintf("the body ApiRequest returned (%d bytes) does not decode to code 0 and the value: %v", len(cBody), err))
+		}
+	}
 	if got := rec.Header().Get("Server"); got != srv {
 		fail("server-header", "", fmt.Sprintf("Server header %q, configured %q", got, srv))
 	}
@@ -841,6 +1019,10 @@ func TestVerifC19(t *testing.T) {
 	defer env.srv.Close()
 	saved := Server
 	defer func() { Server = saved }()
+	savedRT := http.DefaultClient.Transport
+	env.rt = &vC19RT{base: http.DefaultTransport}
+	http.DefaultClient.Transport = env.rt
+	defer func() { http.DefaultClient.Transport = savedRT }()
 	run := func(c vSx) { k.safely(c, func() { vC19Run(k, env, c) }) }
 	if k.replay != nil {
 		run(*k.replay)
@@ -849,15 +1031,18 @@ func TestVerifC19(t *testing.T) {
 	for _, c := range k.corpus() {
 		run(c)
 	}
+	for i := 0; i < k.N(6, 40); i++ {
+		run(vC19GenBig(k.rnd))
+	}
 	n := k.N(2000, 24000)
 	for i := 0; i < n; i++ {
 		c := vC19Gen(k.rnd)
 		run(c)
 		// the plain and the JSONP variant of the same value
 		if len(c.l[1].b) > 0 {
-			run(vL(c.l[0], vS(""), c.l[2], c.l[3], c.l[4]))
+			run(vL(c.l[0], vS(""), c.l[2], c.l[3], c.l[4], vB(nil), vL(vZ(0)), vC19GenFx(k.rnd, false)))
 		} else if k.rnd.chance(1, 3) {
-			run(vL(c.l[0], vS(k.rnd.pickStr("cb", "cb%s", "%d", "j.q")), c.l[2], c.l[3], c.l[4]))
+			run(vL(c.l[0], vS(k.rnd.pickStr("cb", "cb%s", "%d", "j.q")), c.l[2], c.l[3], c.l[4], vB(nil), vL(vZ(0)), vC19GenFx(k.rnd, false)))
 		}
 	}
 }
